@@ -19,6 +19,7 @@ PLAN = dict(
     runs=[
         dict(name="conc", run="^(TestConcRoundTrip)$", checks=(15, 1000), shards=(2, 8), timeout=(400, 3600), race=True),
         dict(name="rt", run="^(TestPropRoundTrip|TestCorpus)$", checks=(1500, 200000), shards=(2, 16), timeout=(300, 3600)),
+        dict(name="shapes", run="^TestShapeSweep$", timeout=(300, 1800)),
         dict(name="large", run="^TestLargeBodies$", timeout=(300, 1800), mem_gb=6),
     ],
     require=[("roundtrip", "variants"), ("roundtrip", "variants-multikey"), ("roundtrip", "write-must-fail"), ("roundtrip", "signatures"),
